@@ -449,7 +449,7 @@ fn parse_name<T: Pep508Url>(cursor: &mut Cursor) -> Result<PackageName, Pep508Er
     } else {
         return Err(Pep508Error {
             message: Pep508ErrorSource::String("Empty field is not allowed for PEP508".to_string()),
-            start: 0,
+            start,
             len: 1,
             input: cursor.to_string(),
         });
@@ -603,7 +603,7 @@ fn parse_extras_cursor<T: Pep508Url>(
                         format!("Expected either `,` (separating extras) or `]` (ending the extras section), found `{other}`")
                     ),
                     start: pos,
-                    len: 1,
+                    len: other.len_utf8(),
                     input: cursor.to_string(),
                 });
             }
